@@ -63,8 +63,10 @@ impl Area for FallArea {
             r.line().replacen("desc new", "fall ctor", 1) }
         else if k < 62 { stats.hit("vec"); let nn = rng.below(4); let names: Vec<String> = ["a", "b", "c"][..nn.min(3)].iter().map(|s| s.to_string()).collect();
             let op = *rng.pick(&["with", "withmap", "rm", "rmmap"]); let na = rng.below(6);
-            if op == "with" || op == "rm" { let a: Vec<String> = (0..na).map(|_| rng.pick(&["", "x", "é"]).to_string()).collect(); format!("fall vec op={} names={} arg={}", op, hex_list(&names), hex_list(&a)) }
-            else { let keys = ["a", "b", "c", "zz", "", "d"]; let mut m: Vec<(String, String)> = vec![]; for i in 0..na.min(6) { if rng.chance(70) { m.push((keys[i].to_string(), "v".into())); } } format!("fall vec op={} names={} arg={}", op, hex_list(&names), pairs_str(&m)) } }
+            // children that exist already when the call under test is made (well-formed lookups; an existing child must not make an ill-formed lookup succeed)
+            let pre = if rng.chance(50) { let n = 1 + rng.below(3); let ls: Vec<String> = (0..n).map(|_| { let a: Vec<String> = (0..names.len()).map(|_| rng.pick(&["", "x", "é", "v"]).to_string()).collect(); hex_list(&a) }).collect(); format!(" pre={}", ls.join("/")) } else { String::new() };
+            if op == "with" || op == "rm" { let a: Vec<String> = (0..na).map(|_| rng.pick(&["", "x", "é"]).to_string()).collect(); format!("fall vec op={} names={} arg={}{}", op, hex_list(&names), hex_list(&a), pre) }
+            else { let keys = ["a", "b", "c", "zz", "", "d"]; let mut m: Vec<(String, String)> = vec![]; for i in 0..na.min(6) { if rng.chance(70) { m.push((keys[i].to_string(), "v".into())); } } format!("fall vec op={} names={} arg={}{}", op, hex_list(&names), pairs_str(&m), pre) } }
         else if k < 70 { stats.hit("newcustom"); let p = if rng.chance(40) { "none".to_string() } else { hex_list(&[adv_string(rng, 3)]) };
             let l = if rng.chance(40) { "none".to_string() } else { let mut v: Vec<(String, String)> = vec![]; for _ in 0..rng.below(3) { let k = if rng.chance(60) { rng.pick(&["a", "b", "zone"]).to_string() } else { adv_string(rng, 3) }; if v.iter().all(|c| c.0 != k) { v.push((k, "v".into())); } } pairs_str(&v) };
             format!("fall newcustom prefix={} labels={}", p, l) }
@@ -82,7 +84,9 @@ impl Area for FallArea {
                 "lin" | "exp" => { let (a, b, c) = (f64_parse(p[2]), f64_parse(p[3]), p[4].parse::<usize>().unwrap()); let lin = p[1] == "lin"; class(move || if lin { linear_buckets(a, b, c) } else { exponential_buckets(a, b, c) }) }
                 "ctor" => { let r = Req::parse(&line.replacen("fall ctor", "desc new", 1)); class(move || construct(&r, false)) }
                 "vec" => { let names = unhex_list(field(&p, "names").unwrap()); let arg = field(&p, "arg").unwrap().to_string(); let op = field(&p, "op").unwrap().to_string();
+                    let pre: Vec<Vec<String>> = field(&p, "pre").map(|s| s.split('/').map(unhex_list).collect()).unwrap_or_default();
                     class(move || { let v = AnyVec::new("countervec", &names, &[])?;
+                        for a in &pre { let _ = v.with(&a.iter().map(|s| s.as_str()).collect::<Vec<_>>()); }
                         match op.as_str() { "with" => { let a = unhex_list(&arg); v.with(&a.iter().map(|s| s.as_str()).collect::<Vec<_>>()).map(|_| ()) } "rm" => { let a = unhex_list(&arg); v.rm(&a.iter().map(|s| s.as_str()).collect::<Vec<_>>()) }
                             "withmap" => { let m = parse_pairs(&arg); let hm: HashMap<&str, &str> = m.iter().map(|(k, v)| (k.as_str(), v.as_str())).collect(); v.with_map(&hm).map(|_| ()) }
                             _ => { let m = parse_pairs(&arg); let hm: HashMap<&str, &str> = m.iter().map(|(k, v)| (k.as_str(), v.as_str())).collect(); v.rm_map(&hm) } } }) }
@@ -101,7 +105,10 @@ impl Area for FallArea {
             // declared label (map form: exactly the declared names); everything else is invalid input and must be refused with Err
             if p[1] == "vec" { let names = unhex_list(field(&p, "names").unwrap()); let arg = field(&p, "arg").unwrap(); let op = field(&p, "op").unwrap();
                 let wellformed = if op == "with" || op == "rm" { unhex_list(arg).len() == names.len() } else { let m = parse_pairs(arg); m.len() == names.len() && names.iter().all(|n| m.iter().any(|kv| &kv.0 == n)) };
-                let want = if (op == "with" || op == "withmap") && wellformed { "ok" } else { "err" }; // removing from a fresh vector finds nothing: Err either way
+                let pre: Vec<Vec<String>> = field(&p, "pre").map(|s| s.split('/').map(unhex_list).collect()).unwrap_or_default();
+                // a removal succeeds exactly when it is well-formed and names a child created before (a fresh vector holds none)
+                let exists = wellformed && if op == "rm" { pre.contains(&unhex_list(arg)) } else if op == "rmmap" { let m = parse_pairs(arg); let vals: Vec<String> = names.iter().map(|n| m.iter().find(|kv| &kv.0 == n).map(|kv| kv.1.clone()).unwrap_or_default()).collect(); pre.contains(&vals) } else { false };
+                let want = if ((op == "with" || op == "withmap") && wellformed) || exists { "ok" } else { "err" };
                 if out != "panic" && out != want { fails.push(Failure { class: "invalid-input-accepted".into(), detail: format!("{} returned {}, expected {} (declared labels {:?})", line, out, want, names) }); } }
             // ---- the same for bucket lists: valid exactly when the bounds (an empty list means the defaults; a trailing +Inf counts) are
             // strictly increasing NUMBERS (-0.0 and 0.0 are the same number; NaN is none)
